@@ -204,15 +204,55 @@ LarftInst(n, k, v) ==
 LarftCases == {[m |-> n, n |-> k, v |-> v] : n \in 1 .. Small + 2, k \in 1 .. 5, v \in 0 .. 7}
 
 (****************************************************************************)
+(* Pivoted QR (Dgeqp3):  A * P0 = Q0 * R0.                                  *)
+(*  Q0 signed permutation as above; P0 a column permutation whose first nf  *)
+(*  positions hold the nf FIXED columns (marked in the input jpvt) in        *)
+(*  ascending index order - exactly what the documented pre-processing does; *)
+(*  R0 upper trapezoidal with, for every free step t >= nf,                 *)
+(*        |r_tt| = 6*(k-t)+6   and   all entries above the diagonal (dense) *)
+(*  of modulus <= 2, so that                                                *)
+(*        r_tt^2  >=  12 + sum_{i>=t} r_ic^2   for every later column c:    *)
+(*  the remaining column of largest norm is unique (by a relative margin    *)
+(*  > 0.7 %, far above rounding in the norm down-dating) at every step, so  *)
+(*  column pivoting must return jpvt = P0, R = S*R0 and Q = Q0*S.           *)
+(*  PlantedLemmas!PivotLemma checks the dominance and A*P0 = Q0*R0.         *)
+(****************************************************************************)
+Qp3Inst(m, n, nf) ==
+  LET k == Min(m, n)
+      perm == Pos(Fn([t \in 0 .. m - 1 |-> t + (H(t, m + n, 41) % (m - t))]), m, m)
+      qidx == InvPerm(perm, m)
+      sg == Fn([t \in 0 .. m - 1 |-> Sign(t, m, 43)])
+      cp == Pos(Fn([t \in 0 .. n - 1 |-> t + (H(t, n * 3 + m, 42) % (n - t))]), n, n)
+      F == {cp[i] : i \in 0 .. nf - 1}
+      p0 == Fn([j \in 0 .. n - 1 |-> IF j < nf THEN CHOOSE w \in F : Cardinality({y \in F : y < w}) = j ELSE cp[j]])
+      p0inv == InvPerm(p0, n)
+      Rv(t, c) == IF c < t THEN 0
+                  ELSE IF c = t THEN Sign(t, t, 45) * (IF t < nf THEN Pow2(H(t, t, 46) % 3) ELSE 6 * (k - t) + 6)
+                  ELSE (H(t, c, 47) % 5) - 2
+      R0 == Mat(k, n, Rv)
+      Av(i, c) == IF qidx[i] < k THEN sg[qidx[i]] * R0[qidx[i]][p0inv[c]] ELSE 0
+      A == Mat(m, n, Av)
+      Qv(i, t) == IF perm[t] = i THEN sg[t] ELSE 0
+  IN [fam |-> "qp3", m |-> m, n |-> n, v |-> nf, den |-> 1, k |-> k, nf |-> nf,
+      A |-> MatSeq(A, m, n), RR |-> MatSeq(R0, k, n), Q |-> MatSeq(Mat(m, m, Qv), m, m),
+      jin |-> [j \in 1 .. n |-> IF (j - 1) \in F THEN 0 ELSE -1], jpvt |-> VecSeq(p0, n),
+      tol |-> 30 * Max(Max(m, n), 1) * Norm1(A, m, n)]
+
+Qp3Cases == {[m |-> m, n |-> n, v |-> nf] : m \in 0 .. Small, n \in 0 .. Small, nf \in 0 .. 3}
+              \cup {[m |-> b \div 1000, n |-> b % 1000, v |-> nf] : b \in Big, nf \in {0, 10}}
+
+(****************************************************************************)
 Cases == CASE Fam = "lu" -> {x \in LuCases : LuValid(x)}
            [] Fam = "chol" -> {x \in ChCases : ChValid(x)}
            [] Fam = "qr" -> QrCases
+           [] Fam = "qp3" -> {z \in Qp3Cases : z.v <= z.n}
            [] Fam = "larft" -> {x \in LarftCases : x.n <= x.m}
 
 Inst(x) == CASE Fam = "lu" -> LuInst(x.m, x.n, x.v)
              [] Fam = "chol" -> ChInst(x.n, x.v)
              [] Fam = "qr" -> QrInst(x.m, x.n)
-             [] Fam = "larft" -> LarftInst(x.m, x.n, x.v)
+             [] Fam = "qp3" -> Qp3Inst(x.m, x.n, x.v)
+           [] Fam = "larft" -> LarftInst(x.m, x.n, x.v)
 
 Init == cs \in Cases
 Next == UNCHANGED cs
